@@ -30,13 +30,14 @@ static Out &shard_file(long long x) {
 
 template<size_t D> using Pt = std::array<long long, D>;
 
-template<typename T, size_t D, size_t... I> auto to_tuple_impl(const Pt<D> &p, std::index_sequence<I...>) { return std::make_tuple(T(p[I])...); }
-template<typename T, size_t D> auto to_tuple(const Pt<D> &p) { return to_tuple_impl<T, D>(p, std::make_index_sequence<D>()); }
-template<size_t D, typename Tup, size_t... I> Pt<D> from_tuple_impl(const Tup &t, std::index_sequence<I...>) { return Pt<D>{(long long) std::get<I>(t)...}; }
-template<size_t D, typename Tup> Pt<D> from_tuple(const Tup &t) { return from_tuple_impl<D>(t, std::make_index_sequence<D>()); }
+template<typename T, size_t D, size_t... I> auto to_tuple_impl(const Pt<D> &p, const std::array<T, D> &b, std::index_sequence<I...>) { return std::make_tuple(T(b[I] + T(p[I]))...); }
+template<typename T, size_t D> auto to_tuple(const Pt<D> &p, const std::array<T, D> &b) { return to_tuple_impl<T, D>(p, b, std::make_index_sequence<D>()); }
+template<size_t D, typename T, typename Tup, size_t... I> Pt<D> from_tuple_impl(const Tup &t, const std::array<T, D> &b, std::index_sequence<I...>) {
+    return Pt<D>{(std::get<I>(t) >= b[I] && std::get<I>(t) - b[I] < 100000 ? (long long) (std::get<I>(t) - b[I]) : -7)...}; }
+template<size_t D, typename T, typename Tup> Pt<D> from_tuple(const Tup &t, const std::array<T, D> &b) { return from_tuple_impl<D, T>(t, b, std::make_index_sequence<D>()); }
 template<size_t D> std::string jpt(const Pt<D> &p) { std::string s = "["; for (size_t i = 0; i < D; ++i) { if (i) s += ","; s += std::to_string(p[i]); } return s + "]"; }
 
-struct MdPlan { std::string kind; int side; size_t n; std::vector<std::string> tags; uint64_t seed; };
+struct MdPlan { std::string kind; int side; size_t n; std::vector<std::string> tags; uint64_t seed; int block = 0; };
 
 template<uint8_t D, typename T, size_t Eps>
 void run_md(const MdPlan &pl) {
@@ -46,6 +47,18 @@ void run_md(const MdPlan &pl) {
     Rng rng(pl.seed);
     Out &out = shard_file(x);
     const long long side = pl.side;      // coordinates in [0, side)
+    // Placement in the coordinate space: the points live in one aligned block [base, base + 2^k) per dimension.  All
+    // points and boxes then share their high bits, so the Morton order inside the block is the order of the offsets, which
+    // is what gets logged (TLC has 32-bit integers).  block 1: the topmost block of the encodable range, 2: a random one.
+    constexpr int fieldbits = std::numeric_limits<T>::digits / D;
+    int kbits = 1; while ((1LL << kbits) < side) ++kbits;
+    std::array<T, D> base{};
+    if (pl.block && kbits < fieldbits - 1)
+        for (size_t d = 0; d < D; ++d) {
+            T blocks = (T(1) << (fieldbits - 1 - kbits));        // number of aligned blocks below the limit 2^(fieldbits-1)
+            T h = pl.block == 1 ? blocks - 1 : T(rng.next() % blocks);
+            base[d] = h << kbits;
+        }
     std::vector<Pt<D>> pts;
     auto rnd_pt = [&] { Pt<D> p; for (auto &c : p) c = (long long) rng.below((uint64_t) side); return p; };
     if (pl.kind == "dense") {            // full grid with 50-100% occupancy, some duplicates
@@ -64,12 +77,12 @@ void run_md(const MdPlan &pl) {
     } else {                             // "random"
         for (size_t i = 0; i < pl.n; ++i) { pts.push_back(rnd_pt()); if (rng.chance(1, 10)) pts.push_back(pts.back()); }
     }
-    using Tup = decltype(to_tuple<T, D>(pts[0]));
+    using Tup = decltype(to_tuple<T, D>(pts[0], base));
     std::vector<Tup> tuples;
-    for (auto &p : pts) tuples.push_back(to_tuple<T, D>(p));
+    for (auto &p : pts) tuples.push_back(to_tuple<T, D>(p, base));
 
     out.begin("Reset").num("x", x).str("cls", "Multidim").num("D", D).str("T", type_name<T>()).num("eps", Eps).num("side", side)
-        .str("gen", pl.kind).raw("tags", jstrs(pl.tags)).num("seed", (long long) (pl.seed & 0x7fffffff)).end();
+        .num("block", pl.block).str("gen", pl.kind).raw("tags", jstrs(pl.tags)).num("seed", (long long) (pl.seed & 0x7fffffff)).end();
     std::unique_ptr<M> m;
     std::string res = outcome([&] { m.reset(new M(tuples.begin(), tuples.end())); });
     {
@@ -77,7 +90,8 @@ void run_md(const MdPlan &pl) {
         for (size_t i = 0; i < pts.size(); ++i) { if (i) s += ","; s += jpt<D>(pts[i]); }
         // the sorted codes, as the container stores them (tier B: the specification's own Morton code must agree)
         std::vector<long long> codes;
-        if (m) for (auto c : Access::md_data(*m)) codes.push_back((long long) c);
+        T base_code = Access::md_encode<M>(to_tuple<T, D>(Pt<D>{}, base));
+        if (m) for (auto c : Access::md_data(*m)) codes.push_back(c >= base_code && c - base_code < 2000000000u ? (long long) (c - base_code) : -7);
         out.begin("Points").raw("pts", s + "]").str("out", res).raw("codes", jarr(codes)).end();
     }
     if (res != "ok") { out.begin("End").end(); return; }
@@ -89,15 +103,16 @@ void run_md(const MdPlan &pl) {
         size_t cnt = 0;
         std::string o = outcome([&] {
             auto endit = m->end();
-            for (auto it = m->range(to_tuple<T, D>(mn), to_tuple<T, D>(mx)); it != endit; ++it) {
+            for (auto it = m->range(to_tuple<T, D>(mn, base), to_tuple<T, D>(mx, base)); it != endit; ++it) {
                 if (cnt) rs += ",";
-                rs += jpt<D>(from_tuple<D>(*it));
+                rs += jpt<D>(from_tuple<D, T>(*it, base));
                 if (++cnt > pts.size() + 8) { rs += ",[-1]"; break; }     // runaway iteration: logged, rejected by the spec
             }
         });
         pgm::verif::jump_log = nullptr;
         std::vector<std::vector<long long>> jv;
-        for (auto &j : jl) jv.push_back({(long long) j.from, (long long) j.bigmin, (long long) j.landing});
+        T bc = Access::md_encode<M>(to_tuple<T, D>(Pt<D>{}, base));
+        for (auto &j : jl) jv.push_back({(long long) (j.from - bc), (long long) (j.bigmin - bc), (long long) j.landing});
         out.begin("Range").raw("min", jpt<D>(mn)).raw("max", jpt<D>(mx)).str("shape", shape).raw("res", rs + "]").raw("jumps", jarr2(jv)).str("out", o).end();
     };
     auto ordered = [&](Pt<D> a, Pt<D> b) { for (size_t d = 0; d < D; ++d) if (a[d] > b[d]) std::swap(a[d], b[d]); return std::make_pair(a, b); };
@@ -124,7 +139,7 @@ void run_md(const MdPlan &pl) {
     bool first = true;
     auto do_contains = [&](const Pt<D> &p) {
         bool r = false;
-        std::string o = outcome([&] { r = m->contains(to_tuple<T, D>(p)); });
+        std::string o = outcome([&] { r = m->contains(to_tuple<T, D>(p, base)); });
         if (!first) cs += ",";
         first = false;
         cs += "{\"p\":" + jpt<D>(p) + ",\"r\":" + (o == "ok" ? (r ? "1" : "0") : "-1") + "}";
@@ -150,6 +165,10 @@ void drive(const Plan &p, uint64_t salt, int side_dense, int side_sparse) {
         run_md<D, T, Eps>({"random", side_sparse, 1 + rng.below(4), {"random", "tiny"}, rng.next()});
         run_md<D, T, Eps>({"clusters", side_sparse, 40 + rng.below(100), {"clusters"}, rng.next()});
         run_md<D, T, Eps>({"line", side_sparse, 30 + rng.below(100), {"line"}, rng.next()});
+        // the same shapes in the topmost / a random aligned block of the encodable coordinate range
+        run_md<D, T, Eps>({"dense", std::max(2, side_dense / 2), 0, {"dense", "top_block"}, rng.next(), 1});
+        run_md<D, T, Eps>({"random", side_sparse, 1 + rng.below(quick ? 150 : 600), {"random", "top_block"}, rng.next(), 1});
+        run_md<D, T, Eps>({"clusters", side_sparse, 40 + rng.below(100), {"clusters", "random_block"}, rng.next(), 2});
     }
 }
 
